@@ -110,10 +110,17 @@ SecpSMT.neg_zero_iff SecpSMT
 SecpSMT.chord_on_curve SecpSMT
 SecpSMT.sswu_on_curve SecpSMT2
 SecpSMT.iso_valid SecpSMT2
+SecpSMT.iso_hom_chord SecpSMT3
+SecpSMT.iso_hom_chord_statement_holds SecpSMT3
+SecpSMT.seven_nonsq SecpSMT3
+SecpSMT.not_kernel SecpSMT3
+SecpSMT.iso_pt SecpSMT3
+SecpSMT.X_ne SecpSMT3
 "
 # Lemma lines tagged `{lean: ASSUMED ...}` in the contract files: intentionally NOT proved.  They are never listed
 # under "theorems" (so nothing can read them as ok); stamp.json only names them under "assumed".
-ASSUMED="SecpSMT.iso_hom_chord"
+# Currently none: `iso_hom_chord`, the one lemma that used to be assumed, is proved in SecpSMT3.lean.
+ASSUMED=""
 ALLOWED_AXIOMS=" propext Classical.choice Quot.sound "
 
 elapsed() { awk -v a="$1" -v b="$2" 'BEGIN{printf "%.1f", b-a}'; }
